@@ -393,6 +393,18 @@ def stateful_trace_lines(run: dict) -> "list[dict] | str":
     return out
 
 
+def _chunked(batches: dict, index: dict, size: int) -> tuple[dict, dict]:
+    """Split every batch (same TLC constants) into chunks of `size` traces: one JVM per chunk, several JVMs side by side."""
+    b2: dict = {}
+    i2: dict = {}
+    for key in batches:
+        for c in range(0, len(batches[key]), size):
+            k2 = tuple(key) + (c // size,)
+            b2[k2] = batches[key][c:c + size]
+            i2[k2] = index[key][c:c + size]
+    return b2, i2
+
+
 def action_level_stateful(ctx: Ctx, runs: list[dict]) -> dict:
     """Every stateful-only run (free-running threads, any disturbance) must be a behaviour of Stateful.tla, action by action."""
     batches: dict[tuple, list] = {}
@@ -407,17 +419,18 @@ def action_level_stateful(ctx: Ctx, runs: list[dict]) -> dict:
         key = (int(r["hdr"]["steps"]), int(r["hdr"]["maxfail"]))
         batches.setdefault(key, []).append({"stop": any(ln["e"] == "STOP" for ln in lines), "unique": bool(r["hdr"]["unique"]), "lines": lines})
         index.setdefault(key, []).append(i)
+    batches, index = _chunked(batches, index, 24)
     info = {"runs": 0, "accepted": 0, "rejected": [], "states": 0, "outside_fragment": skipped, "batches": len(batches)}
     jobs = []
     keys = sorted(batches)
     for key in keys:
-        path = ctx.path("strace_%d_%d.json" % key)
+        path = ctx.path("strace_%d_%d_%d.json" % key)
         tlc.write_json(path, batches[key])
-        cfg = ctx.path("StatefulTrace_%d_%d.cfg" % key)
+        cfg = ctx.path("StatefulTrace_%d_%d_%d.cfg" % key)
         with open(cfg, "w") as fd:
             fd.write(STATEFUL_TRACE_CFG % {"steps": key[0], "mf": key[1]})
-        jobs.append({"module": "StatefulTrace", "cfg": cfg, "env": {"OBS_FILE": path}, "workers": 1, "timeout": 1800, "heap": "4g"})
-    results = tlc.run_many(jobs, parallel=6) if jobs else []
+        jobs.append({"module": "StatefulTrace", "cfg": cfg, "env": {"OBS_FILE": path}, "workers": 1, "timeout": 1800, "heap": "2g"})
+    results = tlc.run_many(jobs, parallel=12) if jobs else []
     for key, res in zip(keys, results):
         tlc.require_ok(res, "StatefulTrace %s" % (key,))
         acc = {p[1] for p in res.prints if isinstance(p, list) and p and p[0] == "ACCEPT"}
@@ -524,6 +537,7 @@ def action_level_unit(ctx: Ctx, runs: list[dict]) -> dict:
         batches.setdefault(key, []).append({"stop": any(ln["e"] == "STOP" for ln in lines), "unique": bool(hdr["unique"]),
                                             "fault": bool(hdr["hasfault"]), "lines": lines})
         index.setdefault(key, []).append(i)
+    batches, index = _chunked(batches, index, 12)
     info = {"runs": 0, "accepted": 0, "rejected": [], "states": 0, "outside_fragment": skipped, "batches": len(batches)}
     jobs = []
     keys = sorted(batches)
@@ -533,8 +547,8 @@ def action_level_unit(ctx: Ctx, runs: list[dict]) -> dict:
         cfg = ctx.path("UnitTrace_%d.cfg" % n)
         with open(cfg, "w") as fd:
             fd.write(UNIT_TRACE_CFG % {"w": key[0], "nops": key[1], "mf": key[2], "on": ", ".join(str(x) for x in key[3])})
-        jobs.append({"module": "UnitTrace", "cfg": cfg, "env": {"OBS_FILE": path}, "workers": 1, "timeout": 1800, "heap": "4g"})
-    results = tlc.run_many(jobs, parallel=6) if jobs else []
+        jobs.append({"module": "UnitTrace", "cfg": cfg, "env": {"OBS_FILE": path}, "workers": 1, "timeout": 1800, "heap": "2g"})
+    results = tlc.run_many(jobs, parallel=12) if jobs else []
     for key, res in zip(keys, results):
         tlc.require_ok(res, "UnitTrace %s" % (key,))
         acc = {p[1] for p in res.prints if isinstance(p, list) and p and p[0] == "ACCEPT"}
